@@ -27,6 +27,13 @@ class PW:
         self.name, self.fn = name, fn
 
 
+class PWI:
+    """pointwise clause over integer indices: forall i:Int. fn(i)"""
+
+    def __init__(self, name, fn):
+        self.name, self.fn = name, fn
+
+
 class SumDelta:
     """SUM fam_new(new) - SUM fam(old) == delta, touched keys `keys` (z3 key terms; may alias).
     fam_new defaults to fam (the same family evaluated on two heaps)."""
@@ -95,6 +102,9 @@ def prove_clause(I, prefix, cl, kind="vc"):
         k = I.skolem()
         return [I.oblige(prefix + cl.name, cl.fn(k), kind=kind, detail="skolem key %s" % k,
                          known=[(fid, r(k)) for fid, r in known] if known else None)]
+    if isinstance(cl, PWI):
+        i = I.skolem_idx()
+        return [I.oblige(prefix + cl.name, cl.fn(i), kind=kind, detail="skolem index %s" % i)]
     if isinstance(cl, SumDelta):
         out = []
         old = cl.old
@@ -151,6 +161,8 @@ def control_clause(I, prefix, cl):
         goal = cl.fml
     elif isinstance(cl, PW):
         goal = cl.fn(I.skolem())
+    elif isinstance(cl, PWI):
+        goal = cl.fn(I.skolem_idx())
     elif isinstance(cl, SumDelta):
         new = cl.new if cl.new is not None else I.heap
         tot = z3.RealVal(0)
@@ -172,6 +184,8 @@ def assume_clause(I, cl):
         I.assume(cl.fml)
     elif isinstance(cl, PW):
         I.assume_pw(cl.fn)
+    elif isinstance(cl, PWI):
+        I.assume_pwi(cl.fn)
     elif isinstance(cl, SumDelta):
         new = cl.new if cl.new is not None else I.heap
         I.assume(ghost.gsum(I, cl.fam_new, new) == ghost.gsum(I, cl.fam, cl.old) + cl.delta)
